@@ -73,6 +73,14 @@ CLAIMS = {
         text='Proof for ALL strings (key parts) that Bag._reduce_composite_pk is uniquely decodable and therefore injective on tuples of equal arity: the real function '
              'run on symbolic strings gives enc(a),enc(b),... with one replace chain; local decoding conditions discharged by z3, lifted by the Lean lemma.',
         note='Only the key-encoding clause of C31. to_dict()/to_json() contents and pickling round trips depend on session state and histories: not covered (stated in DESIGN).'),
+    'C05': dict(
+        text='Proof of per-call cache-key soundness (non-interference): for Query._construct_sql_and_arguments every argument handed to the cached SQL construction '
+             '(limit, offset symbolic; distinct; aggregate function, distinct and separator; for_update / nowait / skip_locked symbolic) is the very value stored in the '
+             'lookup key, the key also pins vartypes, pinned parameter values, join syntax option and prefetch attributes, the entry is stored under the lookup key, the '
+             'result-cache key contains the SQL key and the bound arguments, and a hit recomputes nothing; adapt_sql / parse_raw_sql on a symbolic statement text; '
+             'decompile keyed by the identity of a code object that is kept alive; string2ast keyed by the exact source text. _get_translator pinned-value check BOUNDED (<= 2).',
+        note='Whole-history transparency (sequences of queries interleaved with modifications) is not claimed. construct_sql_ast / ast2sql are recording stubs in the key '
+             'contract: what they read beyond their arguments is translator state identified by query._key (assumed).'),
 }
 
 _NOT_BUILT = 'within reach of the technique per DESIGN.md, check not built yet'
